@@ -101,6 +101,8 @@ def graphs(tier, seed):
             for n in sizes:
                 for nz, amp in noises:
                     out.append(("slam", {"kind": kind, "fam": fam, "n": n, "noise": nz, "nz": amp}))
+            # landmarks initialised hundreds of units away: one exact (large) step brings them back, in every frame
+            out.append(("slam", {"kind": kind, "fam": fam, "n": 6, "noise": "sin", "nz": 0.02, "lm_far": True}))
     return out
 
 
@@ -111,6 +113,10 @@ def spec_of(gdesc, seed):
         return F.make_spec(d["types"], seed, d["ms"], [True, False, False], d["vo"], None, None, cands=cands)
     dt, dr = (0.3, 0.2) if d["kind"] == "SE2" else (0.1, 0.05)
     spec, _ = SF.make(d["fam"], d["kind"], d["n"], "alt", d["noise"], dt, dr, d["nz"], seed)
+    if d.get("lm_far"):
+        for k, v in enumerate(spec["vertices"]):
+            if v["id"] >= 1000:
+                v["pose"] = [x + 300.0 * (1 + k % 2) * (-1) ** c for c, x in enumerate(v["pose"])]
     return spec
 
 
